@@ -50,7 +50,8 @@ Clauses ==
       inused |-> Len(Tr[tid].inp) - Len(m.inp) = Obs.inused,
       hist   |-> IF ~Obs.hashist THEN TRUE
                  ELSE Obs.hist = LastK(m.hist, Obs.ringlen),
-      mem    |-> \A k \in 1..Len(Obs.mem) : Word(m, Ext(Obs.mem[k][1], AW)) = Obs.mem[k][2] ]
+      mem    |-> \A k \in 1..Len(Obs.mem) : Word(m, Ext(Obs.mem[k][1], AW)) = Obs.mem[k][2],
+      stats  |-> IF "hasstats" \in DOMAIN Obs /\ Obs.hasstats THEN Obs.flips = m.flips /\ Obs.jumps = m.jumps ELSE TRUE ]
 
 Failing == {c \in DOMAIN Clauses : ~Clauses[c]}
 
